@@ -400,7 +400,7 @@ Fixpoint hwf (in_seq : bool) (h : hpat) : bool :=
   | HMap ks ps r => Nat.eqb (List.length ks) (List.length ps) && forallb (hwf false) ps
                     && match r with Some n => hname_ok n | None => true end
   | HClass _ ps kws kps => Nat.eqb (List.length kws) (List.length kps) && forallb (hwf false) ps && forallb (hwf false) kps
-  | HAs p n => hwf false p && hname_ok n
+  | HAs p n => hwf false p
   end.
 
 Lemma forallb_map {A B} (f : B -> bool) (g : A -> B) l : forallb f (map g l) = forallb (fun x => f (g x)) l.
@@ -423,13 +423,15 @@ Lemma or_min_is_two : or_min_alternatives = 2.
 Proof. reflexivity. Qed.
 Lemma value_min_is_two : value_min_symbols = 2.
 Proof. reflexivity. Qed.
+Lemma as_forbidden_is_underscore : as_forbidden_mangled = "_".
+Proof. reflexivity. Qed.
 
 Lemma forallb_In {A} (f : A -> bool) l x : forallb f l = true -> In x l -> f x = true.
 Proof. intros H Hx. exact (proj1 (forallb_forall _ _) H x Hx). Qed.
 
 (* a pattern compile_pattern accepts compiles to a node compile() accepts (given what compile_pattern
    leaves unchecked: hwf) *)
-Theorem compile_valid : forall h b, supported mangle h = true -> accepted h = true -> hwf b h = true ->
+Theorem compile_valid : forall h b, supported mangle h = true -> accepted mangle h = true -> hwf b h = true ->
   valid b (compile mangle h) = true.
 Proof.
   induction h using hpat_ind'; intros b S A W.
@@ -467,56 +469,56 @@ Proof.
     + rewrite Forall_forall in H0. apply H0; [exact Hx | exact (forallb_In _ _ _ S3 Hx) | exact (forallb_In _ _ _ A3 Hx)
                                              | exact (forallb_In _ _ _ W3 Hx)].
   - reflexivity.
-  - cbn [supported hwf accepted] in *. apply andb_true_iff in W. destruct W as [W1 W2].
-    apply andb_true_iff in A. destruct A as [_ A2]. cbn [compile valid].
-    rewrite (IHh false S A2 W1). exact W2.
+  - cbn [supported hwf accepted] in *. rewrite as_forbidden_is_underscore in A.
+    apply andb_true_iff in A. destruct A as [A1 A2]. cbn [compile valid].
+    rewrite (IHh false S A2 W). exact A1.
 Qed.
 
 (* the converse for the three checks: a pattern compile_pattern rejects would have compiled to a node
-   compile() rejects -- no well-formed input is lost to the new syntax errors, except `p :as _` whose
-   emitted node is rejected because of the name *)
-Theorem rejected_would_be_invalid : forall h b, supported mangle h = true -> mangle as_forbidden_name = "_" ->
-  accepted h = false -> valid b (compile mangle h) = false.
+   compile() rejects -- no well-formed input is lost to the new syntax errors *)
+Theorem rejected_would_be_invalid : forall h b, supported mangle h = true ->
+  accepted mangle h = false -> valid b (compile mangle h) = false.
 Proof.
-  induction h using hpat_ind'; intros b S Mu A; try discriminate.
+  induction h using hpat_ind'; intros b S A; try discriminate.
   - cbn [supported accepted] in *. rewrite or_min_is_two in A. cbn [compile valid]. rewrite map_length.
     destruct (Nat.leb 2 (List.length ps)); [|reflexivity]. cbn [andb] in *.
-    rewrite forallb_map. clear - H S A Mu. induction H as [|x r Hx _ IH]; [discriminate|].
+    rewrite forallb_map. clear - H S A. induction H as [|x r Hx _ IH]; [discriminate|].
     cbn [forallb] in *. apply andb_true_iff in S. destruct S as [S1 S2].
-    destruct (accepted x) eqn:E; [cbn [andb] in A; rewrite (IH S2 A); apply andb_false_r|].
-    rewrite (Hx false S1 Mu eq_refl). reflexivity.
+    destruct (accepted mangle x) eqn:E; [cbn [andb] in A; rewrite (IH S2 A); apply andb_false_r|].
+    rewrite (Hx false S1 eq_refl). reflexivity.
   - cbn [accepted] in A. rewrite value_min_is_two in A. cbn [compile valid]. rewrite map_length. exact A.
   - cbn [supported accepted] in *. cbn [compile valid]. rewrite forallb_map.
     assert (G : forallb (fun x => valid true (compile mangle x)) ps = false).
-    { clear - H S A Mu. induction H as [|x r Hx _ IH]; [discriminate|].
+    { clear - H S A. induction H as [|x r Hx _ IH]; [discriminate|].
       cbn [forallb] in *. apply andb_true_iff in S. destruct S as [S1 S2].
-      destruct (accepted x) eqn:E; [cbn [andb] in A; rewrite (IH S2 A); apply andb_false_r|].
-      rewrite (Hx true S1 Mu eq_refl). reflexivity. }
+      destruct (accepted mangle x) eqn:E; [cbn [andb] in A; rewrite (IH S2 A); apply andb_false_r|].
+      rewrite (Hx true S1 eq_refl). reflexivity. }
     rewrite G. reflexivity.
   - cbn [supported accepted] in *. cbn [compile valid]. rewrite forallb_map.
     assert (G : forallb (fun x => valid false (compile mangle x)) ps = false).
-    { clear - H S A Mu. induction H as [|x r Hx _ IH]; [discriminate|].
+    { clear - H S A. induction H as [|x r Hx _ IH]; [discriminate|].
       cbn [forallb] in *. apply andb_true_iff in S. destruct S as [S1 S2].
-      destruct (accepted x) eqn:E; [cbn [andb] in A; rewrite (IH S2 A); apply andb_false_r|].
-      rewrite (Hx false S1 Mu eq_refl). reflexivity. }
+      destruct (accepted mangle x) eqn:E; [cbn [andb] in A; rewrite (IH S2 A); apply andb_false_r|].
+      rewrite (Hx false S1 eq_refl). reflexivity. }
     rewrite G. rewrite andb_false_r. reflexivity.
   - cbn [supported accepted] in *. apply andb_true_iff in S. destruct S as [S S3]. apply andb_true_iff in S. destruct S as [_ S2].
     cbn [compile valid]. rewrite !forallb_map.
-    assert (G : forall l, Forall (fun h => forall b, supported mangle h = true -> mangle as_forbidden_name = "_" ->
-                                   accepted h = false -> valid b (compile mangle h) = false) l ->
-                forallb (supported mangle) l = true -> forallb accepted l = false ->
+    assert (G : forall l, Forall (fun h => forall b, supported mangle h = true ->
+                                   accepted mangle h = false -> valid b (compile mangle h) = false) l ->
+                forallb (supported mangle) l = true -> forallb (accepted mangle) l = false ->
                 forallb (fun x => valid false (compile mangle x)) l = false).
-    { clear - Mu. intros l Hl. induction Hl as [|x r Hx _ IH]; intros S A; [discriminate|].
+    { clear. intros l Hl. induction Hl as [|x r Hx _ IH]; intros S A; [discriminate|].
       cbn [forallb] in *. apply andb_true_iff in S. destruct S as [S1 S2].
-      destruct (accepted x) eqn:E; [cbn [andb] in A; rewrite (IH S2 A); apply andb_false_r|].
-      rewrite (Hx false S1 Mu eq_refl). reflexivity. }
-    destruct (forallb accepted ps) eqn:E1.
+      destruct (accepted mangle x) eqn:E; [cbn [andb] in A; rewrite (IH S2 A); apply andb_false_r|].
+      rewrite (Hx false S1 eq_refl). reflexivity. }
+    destruct (forallb (accepted mangle) ps) eqn:E1.
     + cbn [andb] in A. rewrite (G kps H0 S3 A). apply andb_false_r.
     + rewrite (G ps H S2 E1). rewrite andb_false_r. reflexivity.
   - cbn [supported accepted] in *. cbn [compile valid].
-    destruct (String.eqb n as_forbidden_name) eqn:E.
-    + apply String.eqb_eq in E. subst n. rewrite Mu. cbn [name_ok String.eqb negb]. apply andb_false_r.
-    + cbn [negb andb] in A. rewrite (IHh false S Mu A). reflexivity.
+    rewrite as_forbidden_is_underscore in A.
+    destruct (String.eqb (mangle n) "_") eqn:E.
+    + cbn [name_ok]. rewrite E. apply andb_false_r.
+    + cbn [negb andb] in A. rewrite (IHh false S A). reflexivity.
 Qed.
 End Valid.
 
@@ -554,12 +556,12 @@ Proof.
 Qed.
 
 Theorem compile_valid_all : forall (mangle : string -> string) h b,
-  accepted h = true -> hwf mangle b h = true -> valid b (compile mangle h) = true.
+  accepted mangle h = true -> hwf mangle b h = true -> valid b (compile mangle h) = true.
 Proof. intros. apply compile_valid; [apply supported_all | assumption | assumption]. Qed.
 
-Theorem rejected_would_be_invalid_all : forall (mangle : string -> string) h b, mangle as_forbidden_name = "_" ->
-  accepted h = false -> valid b (compile mangle h) = false.
-Proof. intros. apply rejected_would_be_invalid; [apply supported_all | assumption | assumption]. Qed.
+Theorem rejected_would_be_invalid_all : forall (mangle : string -> string) h b,
+  accepted mangle h = false -> valid b (compile mangle h) = false.
+Proof. intros. apply rejected_would_be_invalid; [apply supported_all | assumption]. Qed.
 
 (* a toy value domain for the examples: the three constructs that used to be miscompiled *)
 Inductive tval := TStr (s : string) | TList (l : list tval) | TObj (attrs : list (string * tval)).
